@@ -152,6 +152,7 @@ let () =
           | "sens" -> cmd_sens toks
           | "sim" -> cmd_sim toks
           | "dispatch" -> cmd_dispatch toks
+          | "delaydraw" -> cmd_delaydraw toks
           | "iface" -> cmd_iface toks
           | _ -> "ERR unknown command " ^ cmd)
           with e -> "ERR " ^ Printexc.to_string e in
